@@ -14,7 +14,10 @@
 package main
 
 import (
+	"bytes"
+	"encoding/json"
 	"fmt"
+	"os"
 	"runtime"
 	"sort"
 	"strconv"
@@ -417,7 +420,7 @@ func run(cfg *lib.Config, res *lib.Result) {
 		dtDec[v] = types.VerifDecodeType(t)
 	}
 	type tv struct{ t, v int }
-	var raised, returned []tv
+	var raised, returned, raisedFallback []tv // raisedFallback: raised although the inferred type is accepted
 	emptyForNonInstance := 0
 	for t := 0; t < nT; t++ {
 		for v := 0; v < nV; v++ {
@@ -435,6 +438,8 @@ func run(cfg *lib.Config, res *lib.Result) {
 			if u.InM[t] && u.VInM[v] && dts[v] != nil && lat.InModel(dtDec[v]) {
 				if o.Returned {
 					returned = append(returned, tv{t, v})
+				} else if ok, _ := lat.Guarded(func() bool { return px.IsAssignable(u.L[t], dts[v]) }); ok {
+					raisedFallback = append(raisedFallback, tv{t, v})
 				} else {
 					raised = append(raised, tv{t, v})
 				}
@@ -444,6 +449,7 @@ func run(cfg *lib.Config, res *lib.Result) {
 	// not demanded by the property as stated for AssertInstance (it depends on the precision of the inferred type,
 	// property C04): how often a non-instance got an empty detail
 	res.Extra["nonInstance_with_empty_detail"] = emptyForNonInstance
+	res.Extra["nonInstance_whose_inferred_type_is_accepted"] = len(raisedFallback)
 
 	// ---- M: describe cases, stratified over the (expected kind, actual kind, verdict) buckets
 	keys := make([]string, 0, len(buckets))
@@ -491,7 +497,10 @@ func run(cfg *lib.Config, res *lib.Result) {
 		j := rng.Intn(i + 1)
 		sampled[i], sampled[j] = sampled[j], sampled[i]
 	}
-	shards := 4
+	shards, ishards := 4, 2
+	if cfg.Thorough() {
+		shards, ishards = 8, 4
+	}
 	for s := 0; s < shards; s++ {
 		cf := newDescCases()
 		pats, strs := map[string]bool{}, map[string]bool{}
@@ -525,13 +534,15 @@ func run(cfg *lib.Config, res *lib.Result) {
 		cf.Prelude = lat.Oracle(pats, strs)
 		res.CorrFiles = append(res.CorrFiles, cf.WriteTo(cfg.Out, "cases_assert_type"))
 	}
-	for s := 0; s < 2; s++ {
+	for s := 0; s < ishards; s++ {
 		cf := newAInstCases()
 		pats, strs := map[string]bool{}, map[string]bool{}
-		n := coqAssert / 3
+		n := coqAssert * 2 / 3 / ishards
 		for i := 0; i < n; i++ {
 			var x tv
-			if i%3 == 0 && len(returned) > 0 {
+			if i%8 == 1 && len(raisedFallback) > 0 {
+				x = raisedFallback[rng.Intn(len(raisedFallback))]
+			} else if i%3 == 0 && len(returned) > 0 {
 				x = returned[rng.Intn(len(returned))]
 			} else if len(raised) > 0 {
 				x = raised[rng.Intn(len(raised))]
@@ -655,10 +666,33 @@ func addValues(u *lat.Universe, vs []*lat.VSpec) {
 
 // ---- replay ----
 
+// replayInputs reads the input(s) of a replay file keeping integers exact (lib.ReplayInputs decodes numbers
+// as float64, which loses the int64 bounds of Integer types)
+func replayInputs(path string) []interface{} {
+	b, err := os.ReadFile(path)
+	if err != nil {
+		panic(err)
+	}
+	dec := json.NewDecoder(bytes.NewReader(b))
+	dec.UseNumber()
+	var body map[string]interface{}
+	if err := dec.Decode(&body); err != nil {
+		panic(err)
+	}
+	switch in := body["input"].(type) {
+	case []interface{}:
+		return in
+	case nil:
+		return nil
+	default:
+		return []interface{}{in}
+	}
+}
+
 func replay(cfg *lib.Config, res *lib.Result) {
 	dcf, tcf, icf := newDescCases(), newATypeCases(), newAInstCases()
 	pats, strs := map[string]bool{}, map[string]bool{}
-	for _, in := range lib.ReplayInputs(cfg.Replay) {
+	for _, in := range replayInputs(cfg.Replay) {
 		var x struct {
 			Kind string     `json:"kind"`
 			A    *lat.Spec  `json:"a"`
